@@ -451,6 +451,11 @@ pub fn case_parts(case: &Value) -> (Vec<Value>, BTreeSet<String>, Vec<Value>) {
     (arr(c, "defs").clone(), filter_of(c), arr(c, "body").clone())
 }
 
+/// the recorded event `ev` of a trace-validation replay file, if this is one
+pub fn recorded_event<'a>(case: &'a Value, ev: &str) -> Option<&'a Value> {
+    case.get("history").and_then(|h| h.as_array()).and_then(|h| h.iter().find(|e| e["ev"] == ev))
+}
+
 pub fn replay(_ctx: &Ctx, case: &Value) -> Outcome {
     let (defs, filter, body) = case_parts(case);
     let program = build_program(&defs, &body);
@@ -467,6 +472,14 @@ pub fn replay(_ctx: &Ctx, case: &Value) -> Outcome {
     };
     if !same {
         let fails = property_failures(&defs, &filter, &body, &real);
+        if let (true, Some(rec)) = (fails.is_empty(), recorded_event(case, "result")) {
+            // replay of a history that TLC's trace validation rejected: the verdict was TLC's; here we only
+            // establish whether the real code still produces the rejected result
+            if rec["res"] == real_json(&real) {
+                o.violate(Violation::new("result rejected by trace validation (reproduced)", Value::Null, real_json(&real))
+                    .note("the real code returns the same result that spec/trace/GateSequenceTrace.tla rejected"));
+            }
+        }
         if fails.is_empty() {
             if let Some(w) = want {
                 o.diverge(format!("result differs from the model but satisfies the property: model {w} real {}", real_json(&real)));
